@@ -53,9 +53,11 @@ def classify(ev):
             walk(a)
         ls = leaves(x, ev["env"], [])
         op = x["op"]
-        if op in ("and", "or") and any(v.get("t") == "bool" and v["b"] == (op == "or") for v in ls):
+        # an operand that is the absorbing constant, or a sub-expression that may fold to it
+        sub = any(a["op"] != "x" for a in x["a"])
+        if op in ("and", "or") and (sub or any(v.get("t") == "bool" and v["b"] == (op == "or") for v in ls)):
             fams.add("fold-absorbing-shortcut")
-        if op in ("mul", "bitand") and any(num(v) == 0 for v in ls):
+        if op in ("mul", "bitand") and (sub or any(num(v) == 0 for v in ls)):
             fams.add("fold-absorbing-shortcut")
         if op in ("bitor", "bitand") and any(num(v) is not None and (num(v) < 0 or num(v) >= 4294967295) for v in ls):
             fams.add("fold-bits-32bit-allones")
@@ -109,16 +111,19 @@ def run(ctx):
                 ctx.cov[k] = v
         bad = bad_lines(sv) or [res["line"]]
         unknown, known = [], {}
+        # testing aid (mutation runs): treat these families as recorded findings
+        assume = set(filter(None, os.environ.get("VERIF_ASSUME_KNOWN", "").split(",")))
         for ln in bad:
             ev = json.loads(lines[ln - 1])
             fams = classify(ev)
-            if fams and all(ctx.is_known(f) is not None for f in fams):
+            if fams and all(ctx.is_known(f) is not None or f in assume for f in fams):
                 for f in fams:
                     known.setdefault(f, []).append(ev["src"])
             else:
                 unknown.append((ln, ev, fams))
         for f, srcs in known.items():
-            ctx.report_rejection(trace, res, key=f)
+            if ctx.is_known(f) is not None:
+                ctx.report_rejection(trace, res, key=f)
             ctx.log("known finding %s: %d rejected expressions, e.g. %s" % (f, len(srcs), srcs[:3]))
         ctx.cov["rejected_expressions"] = len(bad)
         if not unknown:
